@@ -10,7 +10,9 @@ CHECKS = {
             "explicit-state exploration of the rewrite transition system on the real rules (all starts x 11 configs x all nodes), grid oracle with degree bounds",
             "State = expression tree, transition = (rule configuration, node) executed by the real apply_to on clone_from_root. Every "
             "applicable transition of every start state up to the size bound (and of their rewrite closure to the stated depth) is "
-            "executed and the value compared on a rational grid; inside the rational fragment the degree argument makes equality decided.",
+            "executed and the value compared on a rational grid; inside the rational fragment the degree argument makes equality decided. "
+            "Two driving modes: every step on clone_from_root, and two steps applied to the live tree with every state scanned as a "
+            "search agent does; the result is also evaluated with the library's own evaluator at assignments around 2**62.",
             "independent exact evaluator and the degree-bound argument (DESIGN.md section 3); bounds on tree size and depth", "5 C01"),
     "C02": ("model_checking",
             "explicit-state exploration of the rewrite system from equation states; difference-function oracle",
@@ -52,7 +54,9 @@ CHECKS = {
             "All trees up to the node bound whose leaves (constants and variable values) range over a magnitude alphabet bracketing the "
             "int64 and float64 boundaries are evaluated and compared with exact Python integers (exact class), with the same IEEE "
             "operation sequence (float class, 4 ulp per operation of the largest intermediate), NaN for x/0, plus the unbound-variable "
-            "and equation clauses.",
+            "and equation clauses (integer and float sides), operands beyond the float range, value-equal int/float twins evaluated in "
+            "sequence, evaluate / rewrite in place / evaluate histories, and a differential of a fixed evaluation battery before / "
+            "after unrelated calls (each chunk in a freshly forked process).",
             "Python int and float arithmetic as reference; classes the property leaves unspecified are not judged", "5 C05"),
     "C13": ("exploration",
             "bounded exhaustive enumeration of constructor-built trees (operand on either side) x every node for clone_from_root",
@@ -94,12 +98,15 @@ CHECKS = {
             "explicit-state exploration: every state x every configuration x every node; snapshot oracle for purity",
             "For every explored state can_apply_to is called on every node under every configuration with a before/after snapshot of the "
             "whole tree, repeated, and repeated on an independently built identical tree; find_nodes/find_node compared with the in-order "
-            "applicable list; every applicable transition executed and required to return an expression.",
+            "applicable list; every applicable transition executed and required to return an expression; also on live trees after in-place "
+            "rewrites, on trees whose identical subtrees share node ids, and as a differential of a fixed battery of rule answers "
+            "before / after unrelated calls.",
             "snapshot covers links, payload, ids, classes, _changed, r_index", "5 C06"),
     "C07": ("model_checking",
             "explicit-state exploration of all applicable transitions with link audit / context / isolation oracles",
             "Every applicable transition of every explored state is executed on clone_from_root; the result is audited (links, arity, no "
-            "shared objects, variable set, replacement position, context subtrees unchanged) and the source tree snapshot is compared.",
+            "shared objects, variable set, replacement position, context subtrees unchanged, printer agrees with links, the balanced move "
+            "moved the requested term) and the source tree snapshot is compared; live-tree mode with and without re-listing.",
             "footprint root: node / parent (associative) / root (balanced move)", "5 C07"),
     "C14": ("exploration",
             "bounded exhaustive enumeration of all tree shapes x orders x stop positions on the real code",
